@@ -229,9 +229,14 @@ Fixpoint ws_match (sent : list sentk) (res : list (wsres rpc)) : bool :=
   end.
 Definition ws_write_events (evs : list (wsev rpc)) : list (wsev rpc) :=
   filter (fun e => match e with WsEvWrite _ _ => true | _ => false end) evs.
+(* a Read fails with a connection error only after the connection was broken or a Read was cancelled *)
+Definition spec_ws_noerr (acts : list (wsact rpc bytes)) (evs : list (wsev rpc)) : bool :=
+  existsb (fun a => match a with WsBreak | WsCancelRead => true | _ => false end) acts
+  || forallb (fun e => match e with WsEvRead WsCtx | WsEvRead WsConn | WsEvWrite _ false => false | _ => true end) evs.
 Definition spec_ws (steps : list (list (wsact rpc bytes) * wsobs)) : bool :=
   let evs := flat_map (fun p => wo_events (snd p)) steps in
-  ws_match (ws_sent_of (flat_map fst steps) (ws_write_events evs)) (ws_frame_results evs).
+  ws_match (ws_sent_of (flat_map fst steps) (ws_write_events evs)) (ws_frame_results evs)
+  && spec_ws_noerr (flat_map fst steps) evs.
 
 (* ====================================================================== *)
 (* HTTP                                                                    *)
